@@ -88,6 +88,11 @@ def gen(rng, i, tier):
             else:
                 c = (c03 if spin else c02).gen_call(rng, labs)
                 c["bounds"] = None
+                if not spin and len(labs) >= 3 and rng.random() < 0.07:
+                    # near miss of the z == x*y shortcut: c*z + c*x*y == 0 means z = 0 and x*y = 0
+                    a, b, d = rng.sample(labs, 3)
+                    s_ = rng.choice([1, 1, -1, 2])
+                    c.update({"rel": "eq", "P": G.jraw(rng.sample([((a,), F(s_)), ((b, d), F(s_))], 2))})
                 if ncalls == 2 and _k == 0 and rng.random() < 0.25:
                     c["rel"] = "ne"       # != creates its own kind of ancillas; the next constraint must get fresh names
                 calls.append({"t": "cmp", "c": c})
